@@ -21,7 +21,7 @@ fn spec(t: Tier) -> Spec {
     Spec {
         id: "C09",
         level: "exploration",
-        rule: format!("files named by every string of <= {} characters over {:?} (plus '{{}}', '-a', 'a b', \"a'b\") in one directory, and a directory of names that are not valid UTF-8 (bytes ff, c3, a ff b); argument templates = every list of <= {} arguments over the pieces {:?}; child outcomes {:?} (scripted per invocation; 'missing' = command does not exist); positions of the action {:?}; -exec and -execdir. Slices: all templates x all names (outcome 0, both primaries); all outcomes x positions x primaries on 3 templates with outcomes alternating per file; a binary slice through the find binary. The recorder child logs its argv and cwd: there must be exactly one run per entry on which the action is reached, in visit order (-sorted), each argument = the template with every '{{}}' replaced by the path (t/NAME, or ./NAME with cwd = the parent directory for -execdir) and all other text unchanged, element for element byte-identical; a following labelled -printf fires exactly for the entries whose child exited 0; find's exit status stays 0 whatever the children do. evaluation = one child invocation checked; scale templates: one argument holding {{}} 5, 8, 9, 12 and 20 times, 30 arguments {{}}, 70 000 bytes of literal text before and 100 000 after a {{}}; non-trivial = name with a character other than a and .", t.pick(1, 2), ALPHA, t.pick(2, 3), PIECES, OUTCOMES, POSITIONS),
+        rule: format!("files named by every string of <= {} characters over {:?} (plus '{{}}', '-a', 'a b', \"a'b\") in one directory, and a directory of names that are not valid UTF-8 (bytes ff, c3, a ff b); argument templates = every list of <= {} arguments over the pieces {:?}; child outcomes {:?} (scripted per invocation; 'missing' = command does not exist); positions of the action {:?}; -exec and -execdir. Slices: all templates x all names (outcome 0, both primaries); all outcomes x positions x primaries on 3 templates with outcomes alternating per file; a binary slice through the find binary. The recorder child logs its argv and cwd: there must be exactly one run per entry on which the action is reached, in visit order (-sorted), each argument = the template with every '{{}}' replaced by the path (t/NAME, or ./NAME with cwd = the parent directory for -execdir) and all other text unchanged, element for element byte-identical; a following labelled -printf fires exactly for the entries whose child exited 0; find's exit status stays 0 whatever the children do. evaluation = one child invocation checked; interleaving slice: `-printf '%p ' -exec echo X ;` (also -execdir, text before and after the action, the {{}} + form) through the binary with standard output a pipe — find's own text for an entry must precede the output of the command run for it; scale templates: one argument holding {{}} 5, 8, 9, 12 and 20 times, 30 arguments {{}}, 70 000 bytes of literal text before and 100 000 after a {{}}; non-trivial = name with a character other than a and .", t.pick(1, 2), ALPHA, t.pick(2, 3), PIECES, OUTCOMES, POSITIONS),
         bound: json!({"max_name_len": t.pick(1, 2), "max_template_args": t.pick(2, 3), "outcomes": OUTCOMES, "positions": POSITIONS}),
         assumptions: vec!["the labelled -printf (truth value) is only used on names that are valid UTF-8; tmpfs; -sorted pins the visit order; children are real processes (fork+exec per file)".into()],
         shards: 0,
@@ -365,8 +365,47 @@ fn run(ctx: &mut Ctx) {
             ctx.rep.count("scale_templates", 1);
         }
     }
+    // slice 2d: "at that point of the evaluation" as seen from outside: what find itself wrote
+    // before the action (-printf without a newline, so that it is still buffered) must reach the
+    // shared standard output before the child's own output
+    if ctx.shard == 3 % ctx.nshards {
+        interleaving_slice(ctx);
+    }
     // slice 3: names that are not valid UTF-8 (argv bytes only: the labelled output is not used)
     nonutf8_slice(ctx, &mut job);
+}
+
+/// `find t -sorted -printf '%p ' -exec(dir) echo X ;` (and the `{} +` form, and -fprintf to the same
+/// pipe is not possible, so standard output only) through the binary with standard output a pipe:
+/// each entry's own text must come before the output of the command run for it.
+fn interleaving_slice(ctx: &mut Ctx) {
+    let sbx = ctx.sbx.clone();
+    let t = sbx.join("il");
+    let _ = crate::sandbox::force_remove(&t);
+    std::fs::create_dir(&t).unwrap();
+    for n in ["a", "b", "c"] {
+        std::fs::write(t.join(n), b"").unwrap();
+    }
+    let cases: [(&[&str], &str); 4] = [
+        (&["il", "-sorted", "-printf", "%p ", "-exec", "echo", "X", ";"], "il X\nil/a X\nil/b X\nil/c X\n"),
+        (&["il", "-sorted", "-printf", "%p ", "-execdir", "echo", "X", ";"], "il X\nil/a X\nil/b X\nil/c X\n"),
+        (&["il", "-sorted", "-printf", "<%f>", "-exec", "echo", "{}", ";", "-printf", "."], "<il>il\n.<a>il/a\n.<b>il/b\n.<c>il/c\n."),
+        (&["il", "-sorted", "-printf", "%p ", "-exec", "echo", "{}", "+"], "il il/a il/b il/c il il/a il/b il/c\n"),
+    ];
+    for (args, want) in cases {
+        let got = crate::findrun::run_find_bin(args, &sbx, None);
+        ctx.rep.evaluations += 1;
+        ctx.rep.nontrivial += 1;
+        ctx.rep.count("interleaving_cases", 1);
+        if got.out != want.as_bytes() || got.code != Ok(0) {
+            ctx.rep.violation(
+                "C09 output written by find before the action appears after the command's output (not run at that point of the evaluation, as seen on the shared standard output)",
+                format!("find {:?} | cat\n expected {:?}\n actual   {:?} status {:?}", args, want, String::from_utf8_lossy(&got.out), got.code),
+                json!({"prop":"C09","interleaving":true}),
+            );
+        }
+    }
+    let _ = crate::sandbox::force_remove(&t);
 }
 
 fn nonutf8_slice(ctx: &mut Ctx, job: &mut u64) {
@@ -394,6 +433,10 @@ fn nonutf8_slice(ctx: &mut Ctx, job: &mut u64) {
 }
 
 fn replay(case: &Value, ctx: &mut Ctx) -> Option<String> {
+    if case["interleaving"] == true {
+        interleaving_slice(ctx);
+        return ctx.rep.violations.keys().next().cloned();
+    }
     let maxlen = case["maxlen"].as_u64()? as usize;
     let ns = names(maxlen);
     build(&ctx.sbx.clone(), &ns).ok()?;
